@@ -1265,6 +1265,11 @@ func main() {
 			run.Count("cmd:" + s.cfg.cmd)
 			run.Stats["rpcs"] += len(r.rpcs)
 			run.Stats["cases"]++
+		case "valcmds":
+			run.Emit(valcmdsLine(), "ok") // always the enumeration of THIS binary
+		case "chk-validate":
+			run.Emit(line, vx.Guard(func() string { return execChkValidate(w) }))
+			run.Count("validate-family")
 		case "ev", "prop", "sel", "selinit", "selend":
 			// derived lines: regenerated by `go`, ignored on input
 		default:
